@@ -81,6 +81,7 @@ pub fn catalogue() -> Vec<Edge> {
     e("group g1={a,b} multiple".into(), Box::new(|c| { group(c, "g1", &["a", "b"]).multiple = true; }));
     e("group g2={c,d}".into(), Box::new(|c| { group(c, "g2", &["c", "d"]); }));
     e("group g2={b,c}".into(), Box::new(|c| { group(c, "g2", &["b", "c"]); }));
+    e("group g2={b,c} multiple".into(), Box::new(|c| { group(c, "g2", &["b", "c"]).multiple = true; }));
     e("group g1={a,o}".into(), Box::new(|c| { group(c, "g1", &["a", "o"]); }));
     e("g1.required".into(), Box::new(|c| { group(c, "g1", &["a", "b"]).required = true; }));
     e("g2.required".into(), Box::new(|c| { group(c, "g2", &["c", "d"]).required = true; }));
